@@ -19,7 +19,7 @@ NCHUNK = {"quick": 64, "thorough": 256}
 def shards(tier, seed):
     from mc.props import c13
 
-    out = [("e2e", ch, NCHUNK[tier]) for ch in range(NCHUNK[tier])] + [("hist", k) for k in range(len(c13.history_cases()))]
+    out = [("e2e", ch, NCHUNK[tier]) for ch in range(NCHUNK[tier])] + [("hist", k) for k in range(len(c13.history_cases()))] + [("hashseed", hs) for hs in (1, 2)]
     for n in (2, 3, 4) if tier == "quick" else (2, 3, 4, 5):
         for ncl in (1, 2, 3):
             for mt in (0.0, 0.5, 1.0):
@@ -108,6 +108,42 @@ def run_seam(shard, tier, seed, res):
                     case = {"kind": "seam", "n": n, "colours": list(colours), "clusters": [list(c) for c in cl], "levels": "".join(levels), "merge_threshold": mt}
                     res.violation("c01.seam." + v[0][0], {"case": short_hash(case)}, case, "seam input %s: %s" % (case, v[0][1]))
     res.sample({"kind": "seam", "n": n, "clusters": ncl, "merge_threshold": mt, "levels": lv})
+
+
+# ------------------------------------------------------------------ determinism across processes
+def hashseed_slice(tier, seed):
+    """Fixed slice of structures for the separate-process differential (executed through mc.isolated)."""
+    structs = _sbcfam.structure_list(tier, seed)
+    pick = [s for s in structs if ":" not in s[0] or s[0].endswith("vac0") or s[0].endswith("sub1") or s[0].endswith("ads0")]
+    out = {}
+    from matid.clustering.sbc import SBC
+
+    for label, atoms, _ in pick:
+        if label.startswith("zero_cell") or label.startswith("gas"):
+            continue
+        try:
+            out[label] = [[list(k[0]), list(k[1])] for k in _sbcfam.clusters_key(SBC().get_clusters(atoms.copy()))]
+        except Exception as e:
+            out[label] = "EXC:" + type(e).__name__
+    return out
+
+
+def run_hashseed(shard, tier, seed, res):
+    """'deterministic function of (structure, parameters, seed)': the same calls in a fresh interpreter started with a
+    different PYTHONHASHSEED (set/dict iteration orders of str keys change) must give the same clusters."""
+    from mc import isolated
+
+    here = hashseed_slice(tier, seed)
+    there = isolated.call("mc.props.c01", "hashseed_slice", [tier, seed], env_extra={"PYTHONHASHSEED": str(shard[1])})
+    for label in sorted(here):
+        res.counters["states"] += 1
+        res.counters["evaluations"] += 1
+        res.counters["transitions"] += 1
+        if here[label] != there.get(label):
+            res.violation("c01.hashseed", {"label": label, "hashseed": shard[1]}, {"kind": "hashseed", "label": label, "hashseed": shard[1], "tier": tier, "seed": seed},
+                          "%s: get_clusters(seed=7) in a process with PYTHONHASHSEED=%d gives different clusters than with PYTHONHASHSEED=0" % (label, shard[1]))
+    res.nontrivial.add("hashseed:%d" % shard[1])
+    res.sample({"kind": "hashseed", "hashseed": shard[1], "structures": len(here)})
 
 
 # ------------------------------------------------------------------ end to end
@@ -215,6 +251,9 @@ def run_shard(shard, tier, seed):
     if shard[0] == "seam":
         run_seam(shard, tier, seed, res)
         return res
+    if shard[0] == "hashseed":
+        run_hashseed(shard, tier, seed, res)
+        return res
     if shard[0] == "hist":
         # determinism as a function of (structure, parameters, seed): one SBC instance reused across calls
         from mc.props import c13
@@ -244,6 +283,10 @@ def run_shard(shard, tier, seed):
 
 def replay(case):
     out = []
+    if case["kind"] == "hashseed":
+        res = Result()
+        run_hashseed(("hashseed", case["hashseed"]), case.get("tier", "quick"), case.get("seed", 0), res)
+        return [v for v in res.violations if v["signature"]["label"] == case["label"]]
     if case["kind"] == "hist":
         from mc.props import c13
 
@@ -275,7 +318,7 @@ def describe(tier, seed):
     return {
         "rule": "(A) seam: every synthetic input (n atoms, colour vector sorted, ordered list of <=3 clusters with arbitrary non-empty index sets, a 2- or 3-level distance matrix, merge_threshold in {0,0.5,1}) "
                 "is pushed through the real _merge_clusters -> _localize_clusters -> _clean_clusters; (B) end to end: every structure of F1 (lattice gas), F2 (all single deviations of 6 base crystals + two-slab stack), "
-                "F3 (molecules in a box) and degenerate cells x parameter deviations x the seed-choice tree (scripted chooser: first choice %s, <=%d later deviations) + the real generator with 2 seeds; (C) histories: sequences of get_clusters calls on ONE SBC instance (same Atoms object modified in place; A,B,A,B incl. pairs with equal atom counts) vs fresh instances; "
+                "F3 (molecules in a box) and degenerate cells x parameter deviations x the seed-choice tree (scripted chooser: first choice %s, <=%d later deviations) + the real generator with 2 seeds; (C) histories: sequences of get_clusters calls on ONE SBC instance (same Atoms object modified in place; A,B,A,B incl. pairs with equal atom counts) vs fresh instances; (D) a fixed slice of structures clustered in fresh interpreters started with PYTHONHASHSEED 1 and 2, compared with this process (PYTHONHASHSEED 0); "
                 "states = executions of get_clusters / of the pipeline, transitions = seed choices made / pipeline stages" % ("all atoms for n<=8, else 3-6 class representatives" if tier == "quick" else "all atoms for n<=20", 1 if tier == "quick" else 2),
         "nontrivial_rule": "defective/perturbed structures (label with a deviation) and seam inputs whose number of clusters changed",
         "bounds": {"structures": len(structs), "by_family": fam, "param_deviations": len(_sbcfam.PARAM_DEVS) - 1, "seam_atoms": "2-4" if tier == "quick" else "2-4 with <=3 clusters, 5 with one cluster", "max_runs_per_structure": 64 if tier == "quick" else 200},
